@@ -565,4 +565,85 @@ class ShadowedAttributes(_FlatJson):
                         yield (F(root, full, conv),)
 
 
-BOUNDED = [Lookups, RepeatedFields, AsciiConversion, FormatSpecs, CallThenLookup, ShadowedAttributes]
+class _Chatty:
+    """A value whose text is fixed, but whose __str__ / __repr__ / call makes the logging system flatten and format
+    *another* event on the way (an object that logs a debug message through a serializing observer, or renders an event
+    it keeps): deterministic, with a side effect inside the logger."""
+
+    def __init__(self, mode):
+        self.mode = mode
+
+    def _side_effect(self):
+        other = {"log_format": "{a} {b!r} {a}", "a": 1, "b": "x", "log_level": None}
+        if self.mode in ("flatten", "both"):
+            flattenEvent(other)
+        if self.mode in ("json", "both"):
+            formatEvent(eventFromJSON(eventAsJSON(other)))
+        if self.mode == "extract":
+            from twisted.logger._flatten import extractField
+            extractField("a", other)
+
+    def __str__(self):
+        self._side_effect()
+        return "chatty"
+
+    def __repr__(self):
+        self._side_effect()
+        return "<chatty>"
+
+    def __call__(self):
+        self._side_effect()
+        return "called"
+
+
+class ReentrantValues(Bounded):
+    prop = "C56"
+    title = "a field value whose str() / repr() / call flattens or formats another event on the way"
+    scope = ("formats of 2..4 fields over {peer} {peer!r} {busy} {busy!r} {busy()} {n} with every separator of "
+             "{'', ' ', '/2'}; busy's text is fixed, its side effect is flattenEvent / a JSON round trip and flat format "
+             "/ extractField on an unrelated event; exhaustive")
+    functions = ["flattenEvent", "flatFormat", "extractField", "KeyFlattener.flatKey", "eventAsJSON", "eventFromJSON", "formatEvent"]
+    FIELDS = ("{peer}", "{peer!r}", "{busy}", "{busy!r}", "{busy()}", "{n}")
+
+    def cases(self, tier, rng):
+        for mode in ("flatten", "json", "both", "extract"):
+            for k in (2, 3, 4):
+                for fs in itertools.product(self.FIELDS, repeat=k):
+                    if not any("busy" in f for f in fs) or len(set(fs)) == len(fs):
+                        continue   # needs the chatty value and a repeated field
+                    if k == 4 and tier == "quick" and hash(fs) % 4:
+                        continue
+                    for sep in ("", " ", "/2"):
+                        yield (mode, sep.join(fs))
+
+    def check(self, case):
+        mode, fmt = case
+
+        def event():
+            return {"log_format": fmt, "peer": "10.0.0.1", "busy": _Chatty(mode), "n": 7}
+
+        original = formatEvent(event())
+        e = event()
+        try:
+            flattenEvent(e)
+        except Exception as x:
+            return "format %r: flattenEvent raised %r" % (fmt, x)
+        flat = formatEvent(e)
+        if flat != original:
+            return "format %r (%s): original %s, flattened %s" % (fmt, mode, _q(original), _q(flat))
+        try:
+            txt = formatEvent(eventFromJSON(eventAsJSON(e)))
+        except Exception as x:
+            return "format %r: JSON round trip raised %r" % (fmt, x)
+        if txt != original:
+            return "format %r (%s): original %s, flattened then JSON %s" % (fmt, mode, _q(original), _q(txt))
+        try:
+            txt = formatEvent(eventFromJSON(eventAsJSON(event())))
+        except Exception as x:
+            return "format %r: eventAsJSON raised %r" % (fmt, x)
+        if txt != original:
+            return "format %r (%s): original %s, after JSON %s" % (fmt, mode, _q(original), _q(txt))
+        return None
+
+
+BOUNDED = [Lookups, RepeatedFields, AsciiConversion, FormatSpecs, CallThenLookup, ShadowedAttributes, ReentrantValues]
